@@ -39,7 +39,22 @@ def decode(data, medium):
     raise ValueError(medium)
 
 
-def load(data, medium, loop, loader=None):
+LOAD_WAYS = ('unbundle', 'load', 'recreate', 'recreate-noctx')
+
+
+def load(data, medium, loop, loader=None, how='unbundle'):
+    """Recreate the process through one of the public ways: Bundle.unbundle(ctx), Savable.load(bundle, ctx),
+    ProcessClass.recreate_from(bundle, ctx) and ProcessClass.recreate_from(bundle) with the optional context left out
+    (then the current event loop and the recorded / default loader are used)."""
     bundle = decode(data, medium)
     ctx = persistence.LoadSaveContext(loop=loop, loader=loader) if loader is not None else persistence.LoadSaveContext(loop=loop)
-    return bundle.unbundle(ctx)
+    if how == 'unbundle':
+        return bundle.unbundle(ctx)
+    if how == 'load':
+        return persistence.Savable.load(bundle, ctx)
+    cls = (loader or persistence.loaders.get_object_loader()).load_object(persistence.Savable._get_class_name(bundle))
+    if how == 'recreate':
+        return cls.recreate_from(bundle, ctx)
+    if how == 'recreate-noctx' and loader is None:
+        return cls.recreate_from(bundle)
+    return cls.recreate_from(bundle, ctx)
